@@ -17,9 +17,11 @@ package main
 
 import (
 	"context"
+	"encoding/binary"
 	"encoding/hex"
 	"encoding/json"
 	"fmt"
+	"hash/crc32"
 	"math/rand"
 	"net"
 	"sort"
@@ -484,7 +486,76 @@ func (b *c27Broker) sibling(corr int32, have map[string]bool) (string, int32, bo
 	return "", 0, false
 }
 
-func c27RecordIDs(records []byte) ([]string, error) {
+// c27EncodeLegacy renders a v0/v1 message set (what Produce v0-v2 carries).
+func c27EncodeLegacy(ids []string, magic byte) []byte {
+	var out []byte
+	for i, id := range ids {
+		var m []byte
+		m = append(m, magic, 0)
+		if magic == 1 {
+			m = binary.BigEndian.AppendUint64(m, uint64(1700000000000+int64(i)))
+		}
+		m = binary.BigEndian.AppendUint32(m, 1)
+		m = append(m, 'k')
+		m = binary.BigEndian.AppendUint32(m, uint32(len(id)))
+		m = append(m, id...)
+		out = binary.BigEndian.AppendUint64(out, uint64(i))
+		out = binary.BigEndian.AppendUint32(out, uint32(len(m)+4))
+		out = binary.BigEndian.AppendUint32(out, crc32.ChecksumIEEE(m))
+		out = append(out, m...)
+	}
+	return out
+}
+
+func c27DecodeLegacy(b []byte) ([]string, error) {
+	var ids []string
+	for len(b) > 0 {
+		if len(b) < 12 {
+			return ids, fmt.Errorf("message set: short entry header")
+		}
+		size := int(binary.BigEndian.Uint32(b[8:]))
+		b = b[12:]
+		if size < 6 || size > len(b) {
+			return ids, fmt.Errorf("message set: bad message size %d", size)
+		}
+		m := b[:size]
+		b = b[size:]
+		if crc32.ChecksumIEEE(m[4:]) != binary.BigEndian.Uint32(m) {
+			return ids, fmt.Errorf("message set: crc mismatch")
+		}
+		magic := m[4]
+		m = m[6:]
+		if magic == 1 {
+			if len(m) < 8 {
+				return ids, fmt.Errorf("message set: short timestamp")
+			}
+			m = m[8:]
+		}
+		for f := 0; f < 2; f++ {
+			if len(m) < 4 {
+				return ids, fmt.Errorf("message set: short field")
+			}
+			l := int(int32(binary.BigEndian.Uint32(m)))
+			m = m[4:]
+			if l < 0 {
+				continue
+			}
+			if l > len(m) {
+				return ids, fmt.Errorf("message set: field overruns")
+			}
+			if f == 1 {
+				ids = append(ids, string(m[:l]))
+			}
+			m = m[l:]
+		}
+	}
+	return ids, nil
+}
+
+func c27RecordIDs(records []byte, version int16) ([]string, error) {
+	if version < 3 {
+		return c27DecodeLegacy(records)
+	}
 	batches, err := kbatch.DecodeAll(records)
 	if err != nil {
 		return nil, err
@@ -509,7 +580,7 @@ func (b *c27Broker) onProduce(ev *c27Event, req *kmsg.ProduceRequest, mode strin
 		for _, p := range t.Partitions {
 			tp := c27TPKey(t.Topic, p.Partition)
 			have[tp] = true
-			ids, err := c27RecordIDs(p.Records)
+			ids, err := c27RecordIDs(p.Records, req.Version)
 			if err != nil {
 				ev.Err = fmt.Sprintf("records of %s undecodable: %v", tp, err)
 			}
@@ -931,11 +1002,19 @@ func c27EncodeClientReq(cs *c27Case, rq *c27Req) []byte {
 			for _, p := range t.Parts {
 				rp := kmsg.NewProduceRequestTopicPartition()
 				rp.Partition = p.Part
-				b := kbatch.Batch{Magic: 2, ProducerID: -1, ProducerEpoch: -1, BaseSequence: -1, FirstTimestamp: 1700000000000, MaxTimestamp: 1700000000000}
-				for i, id := range p.IDs {
-					b.Records = append(b.Records, kbatch.Record{OffsetDelta: int32(i), Key: []byte("k"), Value: []byte(id)})
+				if rq.Version < 3 {
+					magic := byte(0)
+					if rq.Version == 2 {
+						magic = 1
+					}
+					rp.Records = c27EncodeLegacy(p.IDs, magic)
+				} else {
+					b := kbatch.Batch{Magic: 2, ProducerID: -1, ProducerEpoch: -1, BaseSequence: -1, FirstTimestamp: 1700000000000, MaxTimestamp: 1700000000000}
+					for i, id := range p.IDs {
+						b.Records = append(b.Records, kbatch.Record{OffsetDelta: int32(i), Key: []byte("k"), Value: []byte(id)})
+					}
+					rp.Records = kbatch.Encode(b)
 				}
-				rp.Records = kbatch.Encode(b)
 				rt.Partitions = append(rt.Partitions, rp)
 			}
 			req.Topics = append(req.Topics, rt)
@@ -1021,6 +1100,10 @@ func c27Judge(cs *c27Case, rq *c27Req, rep c27Reply, events []*c27Event) []c27Ve
 		case "undecodable":
 			vs = append(vs, c27Verdict{api + "_reply_undecodable", "the proxy's reply does not decode at the request version: " + rep.Err})
 		case "ok":
+			if rep.Corr != rq.Corr {
+				vs = append(vs, c27Verdict{api + "_reply_correlation_mismatch", fmt.Sprintf("the frame that answers correlation id %d carries correlation id %d: the client has no reply to its request", rq.Corr, rep.Corr)})
+				break
+			}
 			got := c27Count(rep.Entries)
 			// (1) exactly one entry per requested topic-partition.
 			// The class names the symptom unless the witness itself shows the cause: a well-formed broker
@@ -1257,6 +1340,10 @@ func (e *c27Env) executeAndJudge(ci int, cs *c27Case, rng *rand.Rand) {
 			}
 		}
 		r.Count(cs.API+"_client_requests", 1)
+		r.Seen(cs.API+"_versions", fmt.Sprint(rq.Version))
+		if cs.API == "produce" && rq.Acks == 0 {
+			r.Count("produce_acks0_requests", 1)
+		}
 		if rq.Version >= 13 && cs.API == "fetch" {
 			r.Count(cs.API+"_client_requests_by_topic_id", 1)
 		}
@@ -1293,7 +1380,7 @@ func (e *c27Env) newIDs(n int) []string {
 	return ids
 }
 
-var c27Versions = map[string][]int16{"produce": {3, 5, 7, 8, 9}, "fetch": {11, 12, 13}}
+var c27Versions = map[string][]int16{"produce": {0, 1, 2, 3, 4, 5, 6, 7, 8, 9}, "fetch": {11, 12, 13}}
 
 // c27Matrix enumerates the fault matrix: routing state x fault mode x fault
 // placement x version for a one-partition request, a three-broker fan-out with
@@ -1303,6 +1390,12 @@ func (e *c27Env) c27Matrix(api string) []*c27Case {
 	vers := []int16{3, 9}
 	if api == "fetch" {
 		vers = []int16{11, 13}
+	}
+	if e.r.Thorough() {
+		vers = []int16{0, 2, 3, 7, 9}
+		if api == "fetch" {
+			vers = []int16{11, 12, 13}
+		}
 	}
 	modes := append([]string{c27AcceptClose}, c27ReqModes...)
 	routes := []string{"known", "stale", "none", "nil_router", "unknown_id", "dead_addr"}
@@ -1567,6 +1660,7 @@ func c27Run1(t *testing.T, r *verifkit.Run, e *c27Env, api string, quick, thorou
 	r.Floor(api+"_reply_entries_success", 100)
 	r.Floor(api+"_reply_entries_request_timed_out", 20)
 	r.Floor(api+"_reply_entries_not_leader_after_retries", 5)
+	r.Floor(api+"_versions", int64(len(c27Versions[api])))
 }
 
 func c27Off(api string) int {
